@@ -1129,6 +1129,34 @@ pub fn gen_case(family: &str, seed: u64, idx: usize) -> Case {
                     items.push(item("p71", Expr::And(Box::new(f0()), Box::new(Expr::AutNum(64500, Op::None)))));
                     return mk(Runner::Lib, db, items);
                 }
+                3 | 4 => {
+                    // … and a long history of PANICKING evaluations (the rpsl crate's `todo!()` for
+                    // AS-path regexps / attribute matches, which the agent contains with catch_unwind and
+                    // then goes on with the same evaluator), each after following filter-set references;
+                    // then a chain of filter-sets that is fine on a fresh evaluator
+                    let mut db = small_db();
+                    let depth = 4usize; // within the model's fuel
+                    db.filter_sets = (0..depth)
+                        .map(|i| {
+                            (
+                                format!("FLTR-C{i}"),
+                                vec![Some(if i + 1 < depth {
+                                    Expr::FilterSet(format!("FLTR-C{}", i + 1))
+                                } else {
+                                    Expr::AutNum(64500, Op::None)
+                                })],
+                            )
+                        })
+                        .collect();
+                    let c0 = || Expr::FilterSet("FLTR-C0".into());
+                    let bad = if idx == 3 { Expr::AsPath } else { Expr::Attr };
+                    let failing = Expr::And(Box::new(c0()), Box::new(bad));
+                    let mut items: Vec<Item> = (0..45).map(|i| item(&format!("p{i}"), failing.clone())).collect();
+                    items.push(item("p45", c0()));
+                    items.push(item("p46", failing.clone()));
+                    items.push(item("p47", Expr::And(Box::new(c0()), Box::new(Expr::AutNum(64500, Op::None)))));
+                    return mk(Runner::Lib, db, items);
+                }
                 _ => {}
             }
             let g = GenOpts {
@@ -1280,6 +1308,43 @@ pub fn gen_case(family: &str, seed: u64, idx: usize) -> Case {
                 short: idx % 2 == 1,
                 junk_members: idx % 3 == 1,
             };
+            if idx == 7 || idx == 11 {
+                // hundreds of policies of one run whose evaluation fails AFTER following filter-set
+                // references (the IRR still serves the filter-sets but answers the as-set query with an
+                // error), then some that are fine: whatever an evaluator counts or caches while it
+                // follows references must not turn a later failure into an (empty) result
+                let mut db = small_db();
+                let depth = if idx == 7 { 1usize } else { 4 };
+                db.filter_sets = (0..depth)
+                    .map(|i| {
+                        (
+                            format!("FLTR-C{i}"),
+                            vec![Some(if i + 1 < depth {
+                                Expr::FilterSet(format!("FLTR-C{}", i + 1))
+                            } else {
+                                Expr::AsSet("AS-S0".into(), Op::None)
+                            })],
+                        )
+                    })
+                    .collect();
+                let n = if idx == 7 { 300 } else { 60 };
+                let mut items: Vec<Item> = (0..n)
+                    .map(|i| Item {
+                        name: format!("p{i}"),
+                        expr: Expr::FilterSet("FLTR-C0".into()),
+                        faults: vec![],
+                    })
+                    .collect();
+                items.push(item(&format!("p{n}"), Expr::AutNum(64501, Op::None)));
+                let f = vec![Fault {
+                    sel: FSel::Query("aAS-S0".into()),
+                    kind: if idx == 7 { 'D' } else { 'F' },
+                }];
+                for it in items.iter_mut() {
+                    it.faults = f.clone();
+                }
+                return mk(Runner::Agent, db, items);
+            }
             let mut db = if idx % 3 == 0 {
                 small_db()
             } else {
